@@ -20,6 +20,18 @@ FRAGMENTS = [
 ALPHABET = list('abc xyz \n\n\n\t*_`#>-+=[]()!<>&;:|~\\"\'$1.{}/') + ['é', 'ß', '日', '🎉', ' ', '​', '﻿', '\x00', '\x7f', '&copy;', '\n\n', '    ', '- ', '> ']
 
 
+# lines that mean something special to the block parser when they are the LAST line and lack a terminator,
+# each with a body that makes them matter
+LAST_LINE_CASES = [
+    '```\ncode\n```', '~~~~\ncode\n~~~~', '   ```\n   code\n   ```', 'Title\n===', 'Title\n---', 'a | b\n--|--', 'a | b\n:-|-:\n1 | 2',
+    'text  ', 'text\\', 'line one  \nline two  ', '[ref]\n\n[ref]: /url', '[ref]\n\n[ref]: /url "title"', '[ref]: /url\n"title', '<pre>\nx\n</pre>',
+    '<!-- c\n-->', '<div>\n\n</div>', '-', '- a\n-', '1.', '> quote\n>', '>', 'para\n   ', 'para\n\t', '    code\n    ', '\tcode', '#', '## h ##',
+    '***', '- a\n\n  b', '* a\n  * b\n    * c', '`code', '*em', '[link](/u', '![i](/i', '<http://a.b', '&amp', '\\', '$x$', '[[w|l]]', '~~s~~',
+]
+FIRST_LINE_CASES = ['\ufeff# bom heading', '\x00nul', '   indented three', '    indented four', '\ttab first', '---', '===', '>', '-', '[a]: /u', '```',
+                    '<!--', '|a|b|', '\\', ' ', '\u00a0nbsp', '\u200bzwsp', '\U0001F600 astral', 'x' * 300]
+
+
 def corpus():
     """Inputs taken from the tree under test (data only): spec examples and sample documents, filtered to the domain."""
     texts = []
@@ -70,8 +82,29 @@ def gen_text(rng, corp):
         parts = [FRAGMENTS[rng.randrange(len(FRAGMENTS))] for _ in range(rng.randint(1, 6))]
         sep = rng.choice(['\n', '\n\n', '\n\n', '\n \n'])
         t = sep.join(parts)
-    else:
+    elif x < 0.90:
         t = ''.join(ALPHABET[rng.randrange(len(ALPHABET))] for _ in range(rng.randint(0, 60)))
+    else:
+        # random code points from the whole of Unicode (minus the excluded line separators and surrogates)
+        cps = []
+        for _ in range(rng.randint(1, 40)):
+            r = rng.random()
+            cp = rng.randrange(0x20, 0x7f) if r < 0.5 else rng.randrange(0, 0x3000) if r < 0.8 else rng.randrange(0, 0x110000)
+            c = chr(cp)
+            if 0xD800 <= cp <= 0xDFFF or c in CW.FORBIDDEN:
+                c = '\n'
+            cps.append(c)
+        t = ''.join(cps)
+    # special first / last lines
+    z = rng.random()
+    if z < 0.15:
+        t = FIRST_LINE_CASES[rng.randrange(len(FIRST_LINE_CASES))] + ('\n' + t if t else '')
+    elif z < 0.40:
+        last = LAST_LINE_CASES[rng.randrange(len(LAST_LINE_CASES))]
+        t = (t.rstrip('\n') + '\n\n' if t.strip('\n') and rng.random() < 0.6 else '') + last
+        if rng.random() < 0.7:
+            assert CW.in_domain(t), repr(t)
+            return t           # keep the special last line unterminated
     # final newline: with, without, doubled
     y = rng.random()
     if y < 0.4:
@@ -95,6 +128,9 @@ def gen_scenario(rng, corp, with_fault):
     if n_files > 1 and rng.random() < 0.3:
         texts[-1] = texts[0]                     # the same file twice
     names = ['f%d.md' % i for i in range(n_files)]
+    if rng.random() < 0.25:
+        forms = ['./rel%d.md', 'sub/dir/f%d.md', 'with space %d.md', 'ünï%d.md', 'UPPER%d.MD', 'noext%d', '../up%d.md', 'f%d.markdown']
+        names = [forms[rng.randrange(len(forms))] % i for i in range(n_files)]
     if n_files > 1 and texts[-1] is texts[0] and rng.random() < 0.5:
         names[-1] = names[0]                     # literally the same path twice
     knobs = {
